@@ -111,7 +111,7 @@ Definition ps_write (ps : propset) : option bytes :=
   end.
 
 (* ---- reading ---------------------------------------------------------------------------- *)
-Definition seek (b : bytes) (off : N) : bytes := skipn (N.to_nat off) b.
+Definition seek (b : bytes) (off : N) : bytes := skipn_N off b.
 
 (* PropertyValue::read at the current position *)
 Definition read_value (cp : codepage) (b : bytes) : res propval :=
@@ -128,7 +128,7 @@ Definition read_value (cp : codepage) (b : bytes) : res propval :=
         | None => Err
         | Some (len, r2) =>
             let n := if len =? 0 then 0 else len - 1 in
-            match take_bytes (N.to_nat n) r2 with
+            match take_bytes_N n r2 with
             | None => Err
             | Some (body, r3) =>
                 match get8 r3 with
